@@ -22,13 +22,18 @@ def impl_fn(m, fn_id, deps_form, bounds, vis):
     return sig + " " + m.body(fn_id, "deps", name_expr='"name_from_%s"' % fn_id.split("::")[-2])
 
 
-def build_case(cid, rng, dynamic):
-    want_async = rng.random() < 0.45
+def build_case(cid, rng, dynamic, force_async=False, no_send=False, probes=False):
+    want_async = force_async or rng.random() < 0.45
     t = tg.random_trait(rng, "Tr", dyn_safe=True, allow_async=want_async, with_async_trait=(dynamic and want_async), allow_generic_trait=False)
     t.supers = [s for s in t.supers if "Sized" not in s]
     if not want_async:
         for m in t.methods:
             m.is_async = False
+    if force_async and not any(m.is_async for m in t.methods):
+        t.methods[0].is_async = True
+        t.methods[0].mgenerics = [(n_, b_ + ["::core::marker::Send"]) for n_, b_ in t.methods[0].mgenerics]
+        if dynamic and not t.async_trait:
+            t.async_trait = "#[::async_trait::async_trait]"
     has_async = any(m.is_async for m in t.methods)
     if dynamic:
         # K11 (recorded finding): dynamic impl blocks cannot return borrows from the dependency
@@ -48,6 +53,8 @@ def build_case(cid, rng, dynamic):
     opts = ["TrImpl" if rng.random() < 0.7 else "pub TrImpl", "delegate_by = %s" % ("ref" if dynamic else "DelegateTr")]
     if rng.random() < 0.2:
         opts.append(rng.choice(["mockall = false", "unimock = false", "debug = false"]))
+    if no_send:
+        opts.append("?Send")
     L.append("#[::entrait::entrait(%s)] /*@inv*/" % ", ".join(opts))
     L.append(t.source())
     ntargets = rng.choice([2, 2, 3])
@@ -65,6 +72,8 @@ def build_case(cid, rng, dynamic):
             import copy
             mm = copy.deepcopy(m)
             mm.nested = [(h[1], h[2], "%di32" % rng.randint(1, 9), False) for h in hs if rng.random() < 0.8]
+            if no_send and mm.is_async and not t.async_trait:
+                mm.pre = "let __rc = ::std::rc::Rc::new(1u8); ::vrt::yield_once().await; let _ = *__rc;"
             nested_by_target[(tname, m.name)] = [x[1] for x in mm.nested]
             L.append("    " + impl_fn(mm, "%s::%s::%s" % (cid, tname, m.name), form, bounds, rng.choice(["", "pub ", "pub(crate) "])))
         L.append("}")
@@ -88,6 +97,17 @@ def build_case(cid, rng, dynamic):
     D = ["pub fn run() {"]
     calls = []
     base = 1
+    if probes and not t.async_trait:
+        from .c06 import probe_lines
+        L += probe_lines(t, "Tr", cid)
+        D.append("    { let papp = ::entrait::Impl::new(%s); __c12_probe(&papp);" % apps[0][2])
+        for m in t.methods:
+            if m.is_async:
+                s1, e1, _d = m.call_args(50, "q")
+                D += ["    " + x for x in s1]
+                D.append('    { let fut = %s::%s(%s); ::vrt::fact("dout:%s", ::vrt::output_type_name(&fut)); }' % (
+                    apps[0][1], m.name, ", ".join(["&papp"] + e1), m.name))
+        D.append("    }")
     for ai, (aty, tgt, ctor) in enumerate(apps):
         D.append("    let app%d = ::entrait::Impl::new(%s);" % (ai, ctor))
         D.append('    ::vrt::fact("app%d_addr", ::vrt::addr(&app%d)); ::vrt::fact("app%d_tn", ::vrt::tn(&app%d));' % (ai, ai, ai, ai))
@@ -108,7 +128,8 @@ def build_case(cid, rng, dynamic):
     D.append("}")
     nt = ntargets >= 2 and (len(t.methods) >= 2 or any(
         any(a.type_text() == b.type_text() for a, b in zip(m.params, m.params[1:])) for m in t.methods))
-    meta = {"dynamic": dynamic, "calls": calls, "targets": targets, "apps": apps, "nontrivial": nt,
+    meta = {"dynamic": dynamic, "calls": calls, "targets": targets, "apps": apps, "nontrivial": nt, "opts": opts,
+            "async_trait": t.async_trait, "async_methods": [m.name for m in t.methods if m.is_async], "no_send": no_send,
             "methods": [m.trait_sig() for m in t.methods]}
     return Case(cid, "\n".join(L + D) + "\n", meta=meta)
 
